@@ -428,6 +428,73 @@ def snappy_literals(data):
     return bytes(out)
 
 
+def snappy_copies(data, four_byte_offsets=True, long_literal_forms=True):
+    """A raw snappy block from a small greedy matcher of our own that uses the element forms libsnappy never emits:
+    copies with a 4-byte offset (tag 3; any offset, also small ones), overlapping copies (offset < length: run-length
+    style), copy-1 / copy-2 elements when four_byte_offsets is off, and literals whose length is stored in 3 or 4 bytes
+    (tags 62, 63) although it would fit a shorter form.  All of it is what the format description allows."""
+    data = bytes(data)
+    out = bytearray()
+    v = len(data)
+    while True:
+        b = v & 0x7F
+        v >>= 7
+        out.append(b | (0x80 if v else 0))
+        if not v:
+            break
+    lit_kind = [0]
+
+    def literal(b):
+        if not b:
+            return
+        n = len(b)
+        k = lit_kind[0] = (lit_kind[0] + 1) % 4
+        if long_literal_forms and k == 1 and n <= 1 << 24:
+            out.extend(bytes([62 << 2]) + (n - 1).to_bytes(3, "little"))
+        elif long_literal_forms and k == 2:
+            out.extend(bytes([63 << 2]) + (n - 1).to_bytes(4, "little"))
+        elif n <= 60:
+            out.append((n - 1) << 2)
+        elif n <= 256:
+            out.extend(bytes([60 << 2, n - 1]))
+        elif n <= 65536:
+            out.extend(bytes([61 << 2]) + (n - 1).to_bytes(2, "little"))
+        else:
+            out.extend(bytes([62 << 2]) + (n - 1).to_bytes(3, "little"))
+        out.extend(b)
+
+    def copy(offset, length):
+        while length > 0:
+            n = min(length, 64)
+            if length - n in (1, 2, 3) and not four_byte_offsets:
+                n = length - 4 if length - 4 >= 4 else n      # keep every copy-1 piece >= 4
+            if four_byte_offsets:
+                out.extend(bytes([((n - 1) << 2) | 3]) + offset.to_bytes(4, "little"))
+            elif 4 <= n <= 11 and offset < 2048:
+                out.extend(bytes([((n - 4) << 2) | ((offset >> 8) << 5) | 1, offset & 0xFF]))
+            else:
+                out.extend(bytes([((n - 1) << 2) | 2]) + offset.to_bytes(2, "little"))
+            length -= n
+
+    table, pos, start, n = {}, 0, 0, len(data)
+    while pos + 4 <= n:
+        key = data[pos:pos + 4]
+        cand = table.get(key)
+        table[key] = pos
+        if cand is not None and (four_byte_offsets or pos - cand < 65536):
+            m = 4
+            while pos + m < n and data[cand + m] == data[pos + m]:      # may run past pos: overlapping copy
+                m += 1
+            literal(data[start:pos])
+            copy(pos - cand, m)
+            pos += m
+            start = pos
+        else:
+            pos += 1
+    literal(data[start:])
+    return bytes(out)
+
+
 def _split3(data):
     n = len(data)
     return [data[:n // 3], data[n // 3:2 * n // 3], data[2 * n // 3:]]
@@ -440,7 +507,9 @@ def _split3(data):
 # may hold several members is open, so 'members3' is only required not to yield wrong data ("either").
 VARIANTS = {
     1: {"libsnappy": (snappy_compress, True),
-        "literals_only": (snappy_literals, True)},
+        "literals_only": (snappy_literals, True),
+        "copy4_overlap_long_literals": (lambda d: snappy_copies(d, True, True), True),
+        "copy1_copy2_own_matcher": (lambda d: snappy_copies(d, False, False), True)},
     2: {"level6": (lambda d: gzip_member(d, 6), True),
         "stored_blocks": (lambda d: gzip_member(d, 0), True),
         "fixed_huffman": (lambda d: gzip_member(d, 6, zlib.Z_FIXED), True),
